@@ -371,6 +371,7 @@ impl<'a, C: MlsConfig> Hist<'a, C> {
         // payload validity: the application refuses the identity of this key package (credential rejected by the identity provider)
         let ok = match mls_rs::verif::proposal::leaf_keys(prop) {
             Some((ident, _, _)) if kind == "add" && (self.w.rejected.contains(&ident) || self.bad_kp_ids.contains(&ident)) => 0,
+            Some((ident, _, _)) if kind == "update" && self.w.temp_rejected.contains(&ident) => 0,
             _ => 1,
         };
         format!("{id},{kind},{snd},{src},{target},{}:{}:{},{ok},{pskid}", leaf.0, leaf.1, leaf.2)
@@ -395,6 +396,15 @@ impl<'a, C: MlsConfig> Hist<'a, C> {
 
     /// One round: proposals, application traffic, a commit (possibly raced), delivery, joins, oracles.
     pub fn round(&mut self) {
+        // the temporary refusals of the previous round are lifted
+        for id in std::mem::take(&mut self.w.temp_rejected) {
+            for m in &self.w.members {
+                let mut l = m.h.idp.rejected.lock().unwrap();
+                if let Some(p) = l.iter().position(|x| *x == id) {
+                    l.remove(p);
+                }
+            }
+        }
         let active = self.active();
         if active.is_empty() {
             return;
@@ -517,6 +527,7 @@ impl<'a, C: MlsConfig> Hist<'a, C> {
         // ---- offending by-reference proposals (must be dropped by the committer, C10) ----------------------
         let mut offenders = 0u64;
         let mut revoke_after_delivery: Vec<Vec<u8>> = vec![];
+        let mut temp_revoke: Vec<Vec<u8>> = vec![];
         let mut reinit_with_update = false;
         // (member, key package) of `add-existing` offenders: if the same commit removes that member the Add is legitimate
         let mut existing_adds: Vec<usize> = vec![];
@@ -528,7 +539,7 @@ impl<'a, C: MlsConfig> Hist<'a, C> {
                 }
                 let p = *self.rng.pick(&others);
                 let pname = self.w.members[p].setup.name.clone();
-                let kind = self.rng.below(10);
+                let kind = self.rng.below(11);
                 let mut note = String::new();
                 let (r, m) = match kind {
                     0 => {
@@ -620,6 +631,35 @@ impl<'a, C: MlsConfig> Hist<'a, C> {
                         }
                         note = format!("OFFEND add-default-listed {}", self.w.members[o].setup.name);
                         self.w.with_group(p, |g| g.propose_add(kp, vec![]))
+                    }
+                    10 => {
+                        // payload-invalid Updates: two or three members propose an Update; before the commit every application
+                        // starts refusing their identities for the rest of the round: the committer must drop exactly those
+                        // Updates (next to the valid ones of the round), receivers never see them
+                        let free: Vec<usize> = active
+                            .iter()
+                            .copied()
+                            .filter(|&i| i != c_pre && !updaters.contains(&i) && !removed_targets.contains(&self.leaf_of(i)))
+                            .collect();
+                        if free.len() < 2 || !temp_revoke.is_empty() {
+                            continue;
+                        }
+                        let k = if free.len() >= 3 && self.rng.chance(1, 2) { 3 } else { 2 };
+                        for &x in free.iter().take(k) {
+                            updaters.push(x);
+                            let r = self.w.with_group(x, |g| g.propose_update(vec![]));
+                            let xname = self.w.members[x].setup.name.clone();
+                            let note = "OFFEND update-refused".to_string();
+                            self.w.log(format!("propose {xname} {note} -> {}", r.0.s()));
+                            if let Some(m) = r.1.clone() {
+                                let mi = self.w.push_msg("proposal", &xname, epoch, m, &note);
+                                round_props.push(mi);
+                                self.tap_broadcast(mi);
+                                offenders += 1;
+                                temp_revoke.push(self.w.members[x].identity.clone());
+                            }
+                        }
+                        continue;
                     }
                     9 => {
                         // a by-reference re-init next to a by-reference Update of another member: the re-init must be dropped
@@ -767,9 +807,23 @@ impl<'a, C: MlsConfig> Hist<'a, C> {
             }
             self.rep.cover.insert("revoked-adds".into());
         }
+        if !temp_revoke.is_empty() {
+            // (current members only: a joiner validates the whole tree it receives, including the leaves of these members)
+            for id in &temp_revoke {
+                for &i in &active {
+                    self.w.members[i].h.idp.rejected.lock().unwrap().push(id.clone());
+                }
+            }
+            self.w.temp_rejected = temp_revoke.clone();
+            self.rep.cover.insert(format!("refused-updates={}", temp_revoke.len()));
+        }
         // ---- the commit -----------------------------------------------------------------------
         // committer: not a target of a pending removal (the library would filter that proposal anyway)
-        let cands: Vec<usize> = active.iter().copied().filter(|&i| !removed_targets.contains(&self.leaf_of(i))).collect();
+        let cands: Vec<usize> = active
+            .iter()
+            .copied()
+            .filter(|&i| !removed_targets.contains(&self.leaf_of(i)) && !self.w.temp_rejected.contains(&self.w.members[i].identity))
+            .collect();
         if cands.is_empty() {
             return;
         }
